@@ -287,6 +287,73 @@ def vsl_layouts(M, rec, rng, nmax, k=0, n=1):
     rec.extra["exhaustive_vsl_layouts_up_to_segments"] = nmax
 
 
+def numpy_arguments_to_casadi(M, rec, rng, reps, mon):
+    """The vector primitives of the CasADi link engine called with plain writable NumPy arrays (they are plain
+    arithmetic, so this works on the unchanged tree; a primitive that refuses such arguments is counted, not judged),
+    side by side with the NumPy engine ON THE SAME ARGUMENT OBJECTS: both must return the value of the reference
+    computed from copies taken before the calls."""
+    import sym_metanet.engines.casadi as EC
+    import sym_metanet.engines.numpy as EN
+
+    was = mon.enabled
+    mon.enabled = False
+    try:
+        for it in range(reps):
+            p = link_pars(rng)
+            T = 10 / 3600
+            N = rng.choice((1, 2, 3, 5))
+            rho = np.array([rho_val(rng, p) for _ in range(N)], float)
+            v = np.array([v_val(rng, p) for _ in range(N)], float)
+            prim = ("step_speed", "step_density", "get_flow", "Veq")[it % 4]
+            if prim == "step_speed":
+                vu = np.array([v_val(rng, p) for _ in range(N)], float)
+                rd = np.array([rho_val(rng, p) for _ in range(N)], float)
+                Ve = np.array([R.veq(x, p["v_free"], p["rho_crit"], p["a"]) for x in rho], float)
+                combo = rng.randrange(4)
+                extra = ((rng.uniform(0, 2000), 0.0122) if combo & 1 else (None, None)) + ((1, 1.8, p["rho_crit"]) if combo & 2 else (None, None, None))
+                args = (v, vu, rho, rd, Ve, p["lam"], p["L"], 18 / 3600, 60.0, 40.0, T) + extra
+            elif prim == "step_density":
+                q = rho * v * p["lam"]
+                qu = np.array([rng.uniform(0, 6000) for _ in range(N)], float)
+                args = (rho, q, qu, p["lam"], p["L"], T)
+            elif prim == "get_flow":
+                args = (rho, v, p["lam"])
+            else:
+                args = (rho, p["v_free"], p["rho_crit"], p["a"])
+            frozen = tuple(a.copy() if isinstance(a, np.ndarray) else a for a in args)
+            try:
+                expected = np.asarray(getattr(EN.LinksEngine, prim)(*tuple(a.copy() if isinstance(a, np.ndarray) else a for a in frozen)), float).reshape(-1)
+            except Exception:
+                continue
+            order = ("casadi", "numpy") if it % 8 < 4 else ("numpy", "casadi")
+            got = {}
+            refused = False
+            for side in order:
+                E = EC if side == "casadi" else EN
+                try:
+                    r_ = getattr(E.LinksEngine, prim)(*args)
+                    got[side] = np.asarray(cs.DM(r_) if not isinstance(r_, np.ndarray) else r_, float).reshape(-1)
+                except Exception:
+                    if side == "casadi":
+                        refused = True
+                        break
+                    raise
+            if refused:
+                rec.count("numpy_arguments_refused_by_casadi")
+                continue
+            rec.count("numpy_arguments_to_casadi")
+            rec.seen("numpy_arguments_primitives", prim)
+            for side in order:
+                g_ = got[side]
+                if g_.shape != expected.shape or not np.allclose(g_, expected, rtol=1e-9, atol=1e-9, equal_nan=True):
+                    rec.violation(f"{PROP}:{prim}: called with the same NumPy arrays right after each other, the {side} implementation "
+                                  "does not return the value the arguments had when handed over",
+                                  {"primitive": prim, "order": order, "side": side, "expected": expected.tolist(), "got": g_.tolist()})
+                    break
+    finally:
+        mon.enabled = was
+
+
 def run(M, rec, tier, seed, k, n):
     np.seterr(all="ignore")
     rng = random.Random(seed * 1000 + k + 1500)
@@ -297,6 +364,7 @@ def run(M, rec, tier, seed, k, n):
 
         batched.batched_primitives(M, rec, rng, PROP, 600 if tier == "quick" else 6000, monitors=(mon,))
         direct_calls(M, rec, rng, 12000 if tier == "quick" else 150000)
+        numpy_arguments_to_casadi(M, rec, rng, 400 if tier == "quick" else 4000, mon)
         W.numpy_steps(M, rec, rng, 150 if tier == "quick" else 1500, draws=2)
     finally:
         mon.uninstall()
